@@ -107,7 +107,10 @@ def own_vocabulary(binary):
             'values': {k: sorted(v) for k, v in values.items()}}
 
 
-def audit(doc, marker, own):
+_UNREP = re.compile('[\x00-\x08\x0b\x0c\x0e-\x1f\ufffe\uffff]')
+
+
+def audit(doc, marker, own, source=None):
     """None or the description of the first event that is not svgbob's own vocabulary"""
     frozen = own['defs']
     ovoc, opar, oval = own['voc'], own['parents'], own['values']
@@ -160,6 +163,12 @@ def audit(doc, marker, own):
         elif k == 'chars':
             if e[1].strip() and (not stack or stack[-1] not in ('text', 'style')):
                 return 'character data %r inside <%s>' % (e[1][:60], stack[-1] if stack else None)
+            if source is not None and stack and stack[-1] == 'text' and ('&' in e[1] or '<' in e[1] or '>' in e[1]) or False:
+                # input characters surface as character data *as they are*: a reference the input spells out
+                # (`&#60;`) is five characters of text, it must not come back as the character it names
+                got = _UNREP.sub('', e[1]).replace('\r', '\n')
+                if got.strip() and got.strip() not in source:
+                    return 'character data %r of a text element is not a run of input characters (a reference written in the input was resolved?)' % e[1][:80]
         elif k in ('comment', 'pi', 'doctype', 'cdata', 'entity'):
             return 'a %s event: %r' % (k, e[1:])
     if roots != 1:
@@ -227,7 +236,8 @@ def check_case(ctx, case):
     ctx.note(key_of(case['doc'], sorted(case['kw'].items())), True, 'channel_' + case['channel'])
     if not r.ok:
         return 'conversion failed: ' + r.fail_text()
-    msg = audit(r.out, case['marker'], ctx.extra['own'])
+    src = _UNREP.sub('', case['doc']).replace('\r', '\n')
+    msg = audit(r.out, case['marker'], ctx.extra['own'], src)
     if msg:
         return 'channel %s: %s' % (case['channel'], msg)
     return None
